@@ -39,6 +39,12 @@ def report_violation(prop, replay, nofail=False):
     return path
 
 
+def first_diff(a, b):
+    n = min(len(a), len(b))
+    i = next((k for k in range(n) if a[k] != b[k]), n)
+    return "at char %d: impl ...%s | model ...%s" % (i, a[max(0, i - 160):i + 160], b[max(0, i - 160):i + 160])
+
+
 def main():
     ap = argparse.ArgumentParser()
     ap.add_argument("prop")
@@ -170,7 +176,7 @@ def main():
         if tie_fails and not fails:
             c, il, ml = tie_fails[0]
             raise Broken("correspondence: implementation and model disagree on %d case(s) on which the independent oracle finds the property intact" % len(tie_fails),
-                         "first case: %s\nimpl : %s\nmodel: %s" % (c[:1500], il[:600], ml[:600]))
+                         "first case: %s\nimpl : %s\nmodel: %s\nfirst difference: %s" % (c[:1500], il[:600], ml[:600], first_diff(il, ml)))
     except Broken as b:
         broken = broken or b
 
